@@ -1,8 +1,9 @@
 (* C19 — The schema source does not change the generated client.
    Property theorems only; proofs live in Proofs/LoaderP.v and Proofs/IntrospectP.v.
-   The model follows /repo after the fixes 4077122, 4fe57ef, 6530558 (former finding classes
-   F19-input-defaults, F19-malformed-data, F19-bad-url-scheme, F19-dir-suffix); their former
-   refutation witnesses are kept below as regression Examples of the now-true statements. *)
+   The model follows /repo after the fixes 4077122, 4fe57ef, 6530558, b147fbc (former finding
+   classes F19-input-defaults, F19-malformed-data, F19-bad-url-scheme, F19-dir-suffix,
+   F19-deprecated-input-fields); their former refutation witnesses are kept below as regression
+   Examples of the now-true statements. *)
 From Coq Require Import List String Ascii ZArith Bool Permutation.
 From AC Require Import Base.Sexp Base.Strs Base.Json Model.SchemaSrc Model.Loader Model.Introspect
   Proofs.LoaderP Proofs.IntrospectP.
@@ -135,10 +136,12 @@ Theorem C19_header_env_missing : forall en name,
   header_value en (String "$" name) = inl name.
 Proof. exact header_value_missing. Qed.
 
-(* URL, verify flag and resolved headers are what httpx.post receives; descriptions are never asked *)
+(* URL, verify flag and resolved headers are what httpx.post receives; the query is the full
+   introspection query (descriptions, specifiedByURL, isRepeatable, schema description, deprecated
+   arguments and input fields) *)
 Theorem C19_request_sent : forall en s q,
   request_of en s = inr q <->
-  (q_url q = s_url s /\ q_verify q = s_verify s /\ q_descriptions q = false /\
+  (q_url q = s_url s /\ q_verify q = s_verify s /\ q_query q = full_query /\
    Forall2 (header_ok en) (s_headers s) (q_headers q)).
 Proof. exact request_of_spec. Qed.
 Print Assumptions C19_request_sent.
@@ -192,9 +195,23 @@ Example C19_introspect_outcomes_regression :
 Proof. repeat split. Qed.
 
 (* ===================== D. input models: SDL route vs introspection route ===================== *)
-(* full statement: same classes, same fields, same required set, same defaults *)
-Definition C19_introspection_inputs_full : Prop := forall s, wf_sdl s = true ->
+(* full statement, proved: same classes, same fields, same required set, same defaults *)
+Theorem C19_introspection_inputs : forall s, wf_sdl s = true ->
   gen_inputs (via_introspection s) = gen_inputs s.
+Proof. exact introspection_inputs. Qed.
+Print Assumptions C19_introspection_inputs.
+
+Theorem C19_required_set : forall s, wf_sdl s = true ->
+  map (fun c => (fst c, required_names (snd c))) (gen_inputs (via_introspection s)) =
+  map (fun c => (fst c, required_names (snd c))) (gen_inputs s).
+Proof. exact required_set. Qed.
+Print Assumptions C19_required_set.
+
+(* names, types and deprecation marks of all fields survive, for any input list *)
+Theorem C19_introspection_keeps_names_types : forall s,
+  map (fun c => (fst c, map (fun f => (if_name f, if_type f, if_deprecated f)) (snd c))) (via_introspection s) =
+  map (fun c => (fst c, map (fun f => (if_name f, if_type f, if_deprecated f)) (snd c))) s.
+Proof. exact introspection_keeps_names_types. Qed.
 
 Definition fld (n : string) (t : gtype) (d : option cvalue) (dep : bool) : ifield :=
   {| if_name := n; if_type := t; if_ast_default := d; if_value_default := d; if_has_node := true;
@@ -204,49 +221,20 @@ Definition IntT := TNamed "Int".
 (* input In { nn: Int! = 7, d: Int = 5 } *)
 Definition witness_defaults : inputs :=
   [("In", [fld "nn" (TNonNull IntT) (Some (CInt 7)) false; fld "d" IntT (Some (CInt 5)) false])].
-(* input In { a: Int, old: Int @deprecated } *)
-Definition witness_deprecated : inputs := [("In", [fld "a" IntT None false; fld "old" IntT None true])].
+(* input In { a: Int, old: Int @deprecated }   and   input All { x: Int @deprecated } *)
+Definition witness_deprecated : inputs :=
+  [("In", [fld "a" IntT None false; fld "old" IntT None true]); ("All", [fld "x" IntT None true])].
 
-(* still refuted, by the one class that remains open (F19-deprecated-input-fields): deprecated
-   input fields are not transmitted by the introspection query the code sends *)
-Theorem C19_introspection_inputs_refuted : ~ C19_introspection_inputs_full.
-Proof. intro H. specialize (H witness_deprecated eq_refl). vm_compute in H. discriminate. Qed.
-Print Assumptions C19_introspection_inputs_refuted.
-
-(* proved for every schema outside that class: same classes, fields, required flags, defaults *)
-Theorem C19_introspection_inputs : forall s,
-  wf_sdl s = true -> no_deprecated s = true ->
-  gen_inputs (via_introspection s) = gen_inputs s.
-Proof. exact introspection_inputs. Qed.
-Print Assumptions C19_introspection_inputs.
-
-Theorem C19_required_set : forall s,
-  wf_sdl s = true -> no_deprecated s = true ->
-  map (fun c => (fst c, required_names (snd c))) (gen_inputs (via_introspection s)) =
-  map (fun c => (fst c, required_names (snd c))) (gen_inputs s).
-Proof. exact required_set. Qed.
-Print Assumptions C19_required_set.
-
-(* and inside the class the difference is exactly the missing fields: every transmitted field is
-   generated as on the SDL route (name, type, required flag, default) *)
-Theorem C19_introspection_surviving_fields : forall s, wf_sdl s = true ->
-  gen_inputs (via_introspection s) =
-  map (fun c => (fst c, map gen_field (filter (fun f => negb (if_deprecated f)) (snd c)))) s.
-Proof. exact introspection_surviving_fields. Qed.
-Print Assumptions C19_introspection_surviving_fields.
-
-Theorem C19_introspection_keeps_names_types : forall s,
-  map (fun c => (fst c, map (fun p => (pf_name p, pf_type p)) (snd c))) (gen_inputs (via_introspection s)) =
-  map (fun c => (fst c, map (fun f => (if_name f, if_type f)) (filter (fun f => negb (if_deprecated f)) (snd c)))) s.
-Proof. exact introspection_keeps_names_types. Qed.
-
-(* regression: the former witness of F19-input-defaults *)
+(* regression: the former witnesses of F19-input-defaults and F19-deprecated-input-fields *)
 Example C19_introspection_inputs_regression :
-  wf_sdl witness_defaults = true /\ no_deprecated witness_defaults = true /\
+  wf_sdl witness_defaults = true /\
   gen_inputs (via_introspection witness_defaults) = gen_inputs witness_defaults /\
   map (fun c => required_names (snd c)) (gen_inputs (via_introspection witness_defaults)) = [[]] /\
   map (fun c => map pf_default (snd c)) (gen_inputs (via_introspection witness_defaults)) =
-    [[Some (CInt 7); Some (CInt 5)]].
+    [[Some (CInt 7); Some (CInt 5)]] /\
+  wf_sdl witness_deprecated = true /\
+  gen_inputs (via_introspection witness_deprecated) = gen_inputs witness_deprecated /\
+  map (fun c => map pf_name (snd c)) (gen_inputs (via_introspection witness_deprecated)) = [["a"; "old"]; ["x"]].
 Proof. repeat split. Qed.
 
 (* ===================== non-vacuity ===================== *)
@@ -280,8 +268,7 @@ Proof. repeat split. Qed.
 Example C19_inputs_hypotheses_met :
   let s := [("In", [fld "a" IntT None false; fld "n" IntT (Some CNull) false; fld "r" (TNonNull IntT) None false;
                     fld "d" (TNonNull IntT) (Some (CInt 3)) false])] in
-  wf_sdl s = true /\ no_deprecated s = true /\
+  wf_sdl s = true /\
   map (fun c => required_names (snd c)) (gen_inputs s) = [["r"]] /\
-  map (fun c => required_names (snd c)) (gen_inputs (via_introspection s)) = [["r"]] /\
-  map (fun c => map pf_name (snd c)) (gen_inputs (via_introspection witness_deprecated)) = [["a"]].
+  map (fun c => required_names (snd c)) (gen_inputs (via_introspection s)) = [["r"]].
 Proof. repeat split. Qed.
